@@ -10,16 +10,21 @@ theorem get_good_or_failed (s : IS) (h : s.good = true ∨ s.m = 0) : (s.get).1.
   obtain ⟨pre, rest, eof, fail, sk⟩ := s
   cases eof <;> cases fail <;> cases rest <;> simp_all [IS.get, IS.good, IS.m]
 
-/-- the inner loop `while( in.good() && c != ')' ) { in.get( c ); tmp += c; }` -/
-theorem recoverInner_pot (R : Nat) : ∀ (fuel : Nat) (s : IS) (c : Byte) (len steps : Nat), s.m + 1 ≤ fuel →
-    (s.good = true ∨ s.m = 0) →
-    ∃ s' c' len' steps', recoverInner fuel s c len steps = .ok (s', c', len', steps') ∧ s'.m ≤ s.m ∧
-      steps' + pot R s' ≤ steps + pot R s ∧ (s'.good = true → c' = chRParen) ∧ (s'.good = true ∨ s'.m = 0) := by
+theorem get_some_m {s : IS} {x : Byte} (h : (s.get).2 = some x) : (s.get).1.m + 1 ≤ s.m := by
+  obtain ⟨pre, rest, eof, fail, sk⟩ := s
+  cases eof <;> cases fail <;> cases rest <;> simp_all [IS.get, IS.good, IS.m]
+
+/-- the inner loop `while( in.good() && c != ')' … ) { in.get( c ); tmp += c; … }`, with or without the end-of-record test -/
+theorem recoverInner_pot (R : Nat) (stay : Bool) : ∀ (fuel : Nat) (s : IS) (c : Byte) (q : Bool) (len steps : Nat), s.m + 1 ≤ fuel →
+    ∃ s' c' q' f' len' steps', recoverInner stay fuel s c q len steps = .ok (s', c', q', f', len', steps') ∧ s'.m ≤ s.m ∧
+      (f' = false → steps' + pot R s' ≤ steps + pot R s ∧ (s'.good = true → c' = chRParen) ∧
+        ((s.good = true ∨ s.m = 0) → (s'.good = true ∨ s'.m = 0))) ∧
+      (f' = true → steps' + pot R s' ≤ steps + pot R s + 1) := by
   intro fuel
   induction fuel with
-  | zero => intro s c len steps h; omega
+  | zero => intro s c q len steps h; omega
   | succ fuel ih =>
-    intro s c len steps h hgz
+    intro s c q len steps h
     unfold recoverInner
     by_cases hcond : (s.good && c != chRParen) = true
     · simp only [hcond, if_true]
@@ -27,95 +32,140 @@ theorem recoverInner_pot (R : Nat) : ∀ (fuel : Nat) (s : IS) (c : Byte) (len s
       have hpos := good_m_pos hg
       have hge := pot_ge (R := R) hpos
       have hgm := get_m s
-      have hgf := get_good_or_failed s hgz
-      generalize s.get = g at hgm hgf ⊢
-      obtain ⟨s1, o⟩ := g
-      simp only [] at hgm hgf
-      have hp1 : pot R s1 + 1 ≤ pot R s := by
+      have hgf := get_good_or_failed s (Or.inl hg)
+      have hp1 : pot R (s.get).1 + 1 ≤ pot R s := by
         rcases hgm with hh | hh
         · have := pot_drop (R := R) hh (Nat.le_refl 1); omega
         · rw [pot_zero hh]; omega
-      cases o with
-      | none =>
-        obtain ⟨s', c', l', st', he, h1, h2, h3, h4⟩ := ih s1 c (len + 1) (steps + 1) (by rcases hgm with hh | hh <;> omega) hgf
-        exact ⟨s', c', l', st', by simpa using he, by rcases hgm with hh | hh <;> omega, by omega, h3, h4⟩
-      | some c1 =>
-        obtain ⟨s', c', l', st', he, h1, h2, h3, h4⟩ := ih s1 c1 (len + 1) (steps + 1) (by rcases hgm with hh | hh <;> omega) hgf
-        exact ⟨s', c', l', st', by simpa using he, by rcases hgm with hh | hh <;> omega, by omega, h3, h4⟩
+      have hrec : ∀ (c1 : Byte) (q1 : Bool),
+          ∃ s' c' q' f' len' steps', recoverInner stay fuel (s.get).1 c1 q1 (len + 1) (steps + 1) = .ok (s', c', q', f', len', steps') ∧
+            s'.m ≤ s.m ∧
+            (f' = false → steps' + pot R s' ≤ steps + pot R s ∧ (s'.good = true → c' = chRParen) ∧
+              ((s.good = true ∨ s.m = 0) → (s'.good = true ∨ s'.m = 0))) ∧
+            (f' = true → steps' + pot R s' ≤ steps + pot R s + 1) := by
+        intro c1 q1
+        obtain ⟨s', c', q', f', l', st', he, h1, h2, h3⟩ := ih (s.get).1 c1 q1 (len + 1) (steps + 1)
+          (by rcases hgm with hh | hh <;> omega)
+        refine ⟨s', c', q', f', l', st', he, by rcases hgm with hh | hh <;> omega, ?_, ?_⟩
+        · intro hf
+          obtain ⟨x, y, z⟩ := h2 hf
+          exact ⟨by omega, y, fun _ => z hgf⟩
+        · intro hf
+          have := h3 hf
+          omega
+      split
+      · exact hrec _ _
+      · split
+        · rename_i hfound
+          have hg1 : (s.get).1.good = true := by
+            simp only [Bool.and_eq_true] at hfound
+            exact hfound.1.1.2
+          have hpos1 := good_m_pos hg1
+          have hpb := putback_m (s.get).1 chSemi
+          have hm' : ((s.get).1.putback chSemi).m ≤ s.m := by rcases hgm with hh | hh <;> omega
+          refine ⟨_, _, _, _, _, _, rfl, hm', ?_, ?_⟩
+          · intro hf; cases hf
+          · intro _
+            have := pot_mono (R := R) hm'
+            omega
+        · exact hrec _ _
     · simp only [hcond]
-      refine ⟨s, c, len, steps, by simp, Nat.le_refl _, Nat.le_refl _, ?_, hgz⟩
-      intro hg
-      simp [hg] at hcond
-      exact hcond
+      refine ⟨s, c, q, false, len, steps, by simp, Nat.le_refl _, ?_, ?_⟩
+      · intro _
+        refine ⟨Nat.le_refl _, ?_, fun h => h⟩
+        intro hg
+        simp [hg] at hcond
+        exact hcond
+      · intro hf; cases hf
 
-/-- the whole `);` scan: all iterations of both loops are paid by the potential, plus one -/
-theorem recoverOuter_pot (R : Nat) : ∀ (fuel : Nat) (s : IS) (c : Byte) (len steps : Nat), s.m + 1 ≤ fuel →
+/-- the whole `);` scan, for either shape: all iterations of both loops are paid by the potential, plus one -/
+theorem recoverOuter_pot (R : Nat) (stay pb : Bool) : ∀ (fuel : Nat) (s : IS) (c : Byte) (q : Bool) (len steps : Nat), s.m + 1 ≤ fuel →
     (s.good = true ∨ s.m = 0) →
-    ∃ r, recoverOuter fuel s c len steps = .ok r ∧ r.s.m ≤ s.m ∧ r.steps + pot R r.s ≤ steps + pot R s + 1 := by
+    ∃ r, recoverOuter stay pb fuel s c q len steps = .ok r ∧ r.s.m ≤ s.m ∧ r.steps + pot R r.s ≤ steps + pot R s + 1 := by
   intro fuel
   induction fuel with
-  | zero => intro s c len steps h; omega
+  | zero => intro s c q len steps h; omega
   | succ fuel ih =>
-    intro s c len steps h hgz
+    intro s c q len steps h hgz
     unfold recoverOuter
     by_cases hg : s.good = true
     · simp only [hg, Bool.not_true, Bool.false_eq_true, if_false]
       have hpos := good_m_pos hg
       have hge := pot_ge (R := R) hpos
-      obtain ⟨s1, c1, len1, steps1, he, h1, h2, h3, h4⟩ := recoverInner_pot R (fuel + 1) s c len steps h hgz
+      obtain ⟨s1, c1, q1, f1, len1, steps1, he, h1, hnf, hf⟩ := recoverInner_pot R stay (fuel + 1) s c q len steps h
       rw [he]
       simp only []
-      split
-      · rename_i hc
-        have hg1 : s1.good = true := by simp at hc; exact hc.1
-        have hw := ws_m s1
-        have hgm := get_m s1.ws
-        have hpos1 := good_m_pos hg1
-        -- after `ws` and `get`: one byte less, or failed — and good or failed
-        have hshape : ((s1.ws.get).1.good = true ∨ (s1.ws.get).1.m = 0) := by
-          obtain ⟨pre, rest, eof, fail, sk⟩ := s1
-          simp [IS.good] at hg1
-          obtain ⟨rfl, rfl⟩ := hg1
-          simp only [IS.ws, IS.good]
-          generalize IS.skipSpaces pre rest = sp
-          obtain ⟨p, r⟩ := sp
-          cases r <;> simp [IS.get, IS.good, IS.m]
-        generalize s1.ws.get = g at hgm hshape ⊢
-        obtain ⟨s3, o⟩ := g
-        simp only [] at hgm hshape
-        have hp3 : pot R s3 + 1 ≤ pot R s1 := by
-          have hge1 := pot_ge (R := R) hpos1
-          rcases hgm with hh | hh
-          · have := pot_drop (R := R) (a := s3) (b := s1) (d := 1) (by omega) (Nat.le_refl 1); omega
-          · rw [pot_zero hh]; omega
-        have hm3 : s3.m + 1 ≤ fuel := by rcases hgm with hh | hh <;> omega
-        have fin : ∀ c3 : Byte, ∃ r, (if c3 = chSemi then Out.ok (⟨s3, 1, len1 + 1, steps1 + 1⟩ : LoopRes)
-            else recoverOuter fuel s3 c3 (len1 + 1) (steps1 + 1)) = .ok r ∧ r.s.m ≤ s.m ∧
-            r.steps + pot R r.s ≤ steps + pot R s + 1 := by
-          intro c3
+      cases f1 with
+      | true =>
+        simp only [if_true]
+        have := hf rfl
+        exact ⟨_, rfl, h1, by simp only []; omega⟩
+      | false =>
+        simp only [Bool.false_eq_true, if_false]
+        obtain ⟨h2, h3, h4'⟩ := hnf rfl
+        have h4 := h4' hgz
+        split
+        · rename_i hc
+          have hg1 : s1.good = true := by simp at hc; exact hc.1
+          have hc1 : c1 = chRParen := h3 hg1
+          have hw := ws_m s1
+          have hgm := get_m s1.ws
+          have hpos1 := good_m_pos hg1
+          -- after `ws` and `get`: one byte less, or failed — and good or failed
+          have hshape : ((s1.ws.get).1.good = true ∨ (s1.ws.get).1.m = 0) := by
+            obtain ⟨pre, rest, eof, fail, sk⟩ := s1
+            simp [IS.good] at hg1
+            obtain ⟨rfl, rfl⟩ := hg1
+            simp only [IS.ws, IS.good]
+            generalize IS.skipSpaces pre rest = sp
+            obtain ⟨p, r⟩ := sp
+            cases r <;> simp [IS.get, IS.good, IS.m]
+          have hp3 : pot R (s1.ws.get).1 + 1 ≤ pot R s1 := by
+            have hge1 := pot_ge (R := R) hpos1
+            rcases hgm with hh | hh
+            · have := pot_drop (R := R) (a := (s1.ws.get).1) (b := s1) (d := 1) (by omega) (Nat.le_refl 1); omega
+            · rw [pot_zero hh]; omega
+          have hm3 : (s1.ws.get).1.m + 1 ≤ fuel := by rcases hgm with hh | hh <;> omega
           split
-          · exact ⟨_, rfl, by rcases hgm with hh | hh <;> (simp only []; omega), by simp only []; omega⟩
-          · obtain ⟨r, a, b, cc⟩ := ih s3 c3 (len1 + 1) (steps1 + 1) hm3 hshape
+          · rename_i hsemi
+            -- the `;` was read: the `get` succeeded
+            have hsome : ∃ x, (s1.ws.get).2 = some x := by
+              cases hgo : (s1.ws.get).2 with
+              | none => rw [hgo] at hsemi; simp [hc1, chRParen, chSemi] at hsemi
+              | some x => exact ⟨x, rfl⟩
+            obtain ⟨x, hx⟩ := hsome
+            have hstrict := get_some_m hx
+            cases pb with
+            | false =>
+              refine ⟨_, rfl, by simp only [Bool.false_eq_true, if_false]; omega, ?_⟩
+              simp only [Bool.false_eq_true, if_false]
+              omega
+            | true =>
+              have hpb := putback_m (s1.ws.get).1 chSemi
+              have hm' : ((s1.ws.get).1.putback chSemi).m ≤ s1.m := by omega
+              have := pot_mono (R := R) hm'
+              refine ⟨_, rfl, by simp only [if_true]; omega, ?_⟩
+              simp only [if_true]
+              omega
+          · obtain ⟨r, a, b, cc⟩ := ih (s1.ws.get).1 ((s1.ws.get).2.getD c1)
+              (if stay && (s1.ws.get).1.good && (s1.ws.get).2.getD c1 = chQuote then !q1 else q1) (len1 + 1) (steps1 + 1) hm3 hshape
             exact ⟨r, a, by rcases hgm with hh | hh <;> omega, by omega⟩
-        cases o with
-        | none => exact fin c1
-        | some c3 => exact fin c3
-      · rename_i hc
-        have hng : s1.good = false := by
-          by_cases hg1 : s1.good = true
-          · have := h3 hg1; simp [hg1, this] at hc
-          · simpa using hg1
-        have hz1 : s1.m = 0 := by
-          rcases h4 with hh | hh
-          · rw [hng] at hh; cases hh
-          · exact hh
-        have hf : 1 ≤ fuel := by omega
-        obtain ⟨f, rfl⟩ : ∃ f, fuel = f + 1 := ⟨fuel - 1, by omega⟩
-        refine ⟨⟨s1, 0, len1, steps1 + 1⟩, ?_, by simp only []; omega, ?_⟩
-        · unfold recoverOuter; simp [hng]
-        · simp only []
-          rw [pot_zero hz1] at h2 ⊢
-          omega
+        · rename_i hc
+          have hng : s1.good = false := by
+            by_cases hg1 : s1.good = true
+            · have := h3 hg1; simp [hg1, this] at hc
+            · simpa using hg1
+          have hz1 : s1.m = 0 := by
+            rcases h4 with hh | hh
+            · rw [hng] at hh; cases hh
+            · exact hh
+          have hf : 1 ≤ fuel := by omega
+          obtain ⟨f, rfl⟩ : ∃ f, fuel = f + 1 := ⟨fuel - 1, by omega⟩
+          refine ⟨⟨s1, 0, len1, steps1 + 1⟩, ?_, by simp only []; omega, ?_⟩
+          · unfold recoverOuter; simp [hng]
+          · simp only []
+            rw [pot_zero hz1] at h2 ⊢
+            omega
     · simp at hg
       refine ⟨⟨s, 0, len, steps⟩, by simp [hg], Nat.le_refl _, ?_⟩
       show steps + pot R s ≤ steps + pot R s + 1
@@ -200,5 +250,58 @@ theorem exportLoop_pot (R : Nat) (cm : Bool) (iters : Nat) (hR : iters ≤ R) : 
     · refine ⟨⟨s, 0, 0, steps⟩, rfl, Nat.le_refl _, ?_⟩
       show steps + pot R s ≤ steps + pot R s + 3
       omega
+
+/-! ### the `);` scan and the end of the record -/
+
+/-- with the end-of-record test: a record tail `a ;` without `'`, `)` costs `|a| + 1` steps, whatever follows -/
+theorem recoverInner_stays (a : List Byte) : ∀ (pre b : List Byte) (sk : Bool) (c : Byte) (len steps fuel : Nat),
+    (∀ x ∈ a, x ≠ chQuote ∧ x ≠ chRParen ∧ x ≠ chSemi) → c ≠ chRParen → a.length + 1 ≤ fuel →
+    recoverInner true fuel ⟨pre, a ++ chSemi :: b, false, false, sk⟩ c false len steps =
+      .ok (⟨a.reverse ++ pre, chSemi :: b, false, false, sk⟩, chSemi, false, true, len + a.length + 1, steps + a.length + 1) := by
+  induction a with
+  | nil =>
+    intro pre b sk c len steps fuel _ hc hf
+    obtain ⟨f, rfl⟩ : ∃ f, fuel = f + 1 := ⟨fuel - 1, by omega⟩
+    unfold recoverInner
+    have h1 : (chSemi = chQuote) = False := by decide
+    simp [IS.good, IS.get, IS.putback, hc, h1]
+  | cons x a ih =>
+    intro pre b sk c len steps fuel ha hc hf
+    obtain ⟨f, rfl⟩ : ∃ f, fuel = f + 1 := ⟨fuel - 1, by simp at hf; omega⟩
+    have hx := ha x (by simp)
+    have hih := ih (x :: pre) b sk x (len + 1) (steps + 1) f (fun y hy => ha y (by simp [hy])) hx.2.1 (by simp at hf; omega)
+    have hget : IS.get ⟨pre, x :: (a ++ chSemi :: b), false, false, sk⟩ = (⟨x :: pre, a ++ chSemi :: b, false, false, sk⟩, some x) := by
+      simp [IS.get, IS.good]
+    unfold recoverInner
+    simp only [List.cons_append, hget]
+    simp [IS.good, hc, hx.1, hx.2.2, hih]
+    omega
+
+/-- without it: when no `)` follows, the inner loop reads to the end of the input -/
+theorem recoverInner_runs_on (rest : List Byte) : ∀ (pre : List Byte) (sk : Bool) (c : Byte) (q : Bool) (len steps fuel : Nat),
+    (∀ x ∈ rest, x ≠ chRParen) → c ≠ chRParen → rest.length + 2 ≤ fuel →
+    ∃ c', recoverInner false fuel ⟨pre, rest, false, false, sk⟩ c q len steps =
+      .ok (⟨rest.reverse ++ pre, [], true, true, sk⟩, c', q, false, len + rest.length + 1, steps + rest.length + 1) := by
+  induction rest with
+  | nil =>
+    intro pre sk c q len steps fuel _ hc hf
+    obtain ⟨f, rfl⟩ : ∃ f, fuel = f + 2 := ⟨fuel - 2, by simp at hf; omega⟩
+    refine ⟨c, ?_⟩
+    unfold recoverInner
+    simp [IS.good, IS.get, hc]
+    unfold recoverInner
+    simp [IS.good]
+  | cons x r ih =>
+    intro pre sk c q len steps fuel hr hc hf
+    obtain ⟨f, rfl⟩ : ∃ f, fuel = f + 1 := ⟨fuel - 1, by simp at hf; omega⟩
+    have hx := hr x (by simp)
+    obtain ⟨c', hc'⟩ := ih (x :: pre) sk x q (len + 1) (steps + 1) f (fun y hy => hr y (by simp [hy])) hx (by simp at hf; omega)
+    refine ⟨c', ?_⟩
+    have hget : IS.get ⟨pre, x :: r, false, false, sk⟩ = (⟨x :: pre, r, false, false, sk⟩, some x) := by
+      simp [IS.get, IS.good]
+    unfold recoverInner
+    simp only [hget]
+    simp [IS.good, hc, hc']
+    omega
 
 end StepModel.P21Safe
